@@ -4,9 +4,32 @@ NOTES = ("All checks share one engine: bin/check <id>. No hook is committed in /
 _std_note = ("Trusted: Lean 4.33 kernel; axioms propext, Classical.choice, Quot.sound only (printed per theorem into the evidence on every run); "
              "the hand-written model is tied to the code by differential execution of the real handlers (go/cmd/drive, shims) against the model "
              "on generated histories - agreement is shown on those histories only; protobuf/websocket encoding is outside the model.")
+_tech = "Lean 4 theorems over a hand-written model + differential correspondence on the real handlers"
 TEXT = {
+ 'C02': dict(level="Per-step theorems (C02_entityAdd, _entityDelete, _updatePose, _custom, _action, _assetAdd and the _refused/_dropped companions) prove that an "
+                   "accepted change is delivered exactly once to every other member and never to its author, and a refused one to nobody, for every session "
+                   "state with pairwise distinct connections - an invariant proved for every reachable state (run_WF). Sequential histories only; the "
+                   "concurrent clause and the per-sender order clause are checked by the correspondence run, not proved.",
+             note=_std_note, technique=_tech),
+ 'C05': dict(level="C05_delete_guard / _pose_guard / _asset_guard prove that a non-owner's request changes nothing through the core handler and every module; "
+                   "C05_owner_immutable proves that no request ever changes an entity's owner (new entities belong to the requester under a fresh id).",
+             note=_std_note, technique=_tech),
+ 'C06': dict(level="C06_entities/_components/_actions/_assets/_subscriptions/_participants/_leave_broadcast/_delete_broadcasts give the exact post-state and the exact "
+                   "deliveries of leaveSession, the one function every way of leaving goes through in the model (disconnect, handler error, session switch). "
+                   "Which wire-level endings reach it is established by the correspondence, not by proof.",
+             note=_std_note, technique=_tech),
+ 'C07': dict(level="The registry invariant Server.WF (distinct ids and UUIDs, no empty registered session, no live id in the pool, gauge = number of sessions) is proved "
+                   "for every state reachable by any sequential history (C07_registry_invariant via run_WF); C07_join_live / _join_refused / _last_departure / "
+                   "_departure_keeps / _fresh_session give the per-step clauses. The schedule-quantified clauses are NOT proved (layer C not built yet).",
+             note=_std_note, technique=_tech),
+ 'C12': dict(level="Refinement of the component store to a partial map: add/update/delete/list/entity-removal theorems (C12_*) state the exact effect on the set of "
+                   "components and the refusal codes, for every session state.",
+             note=_std_note, technique=_tech),
+ 'C13': dict(level="C13_add_notify/_delete_notify/_update_notify give the exact recipients of component notifications as a function of the subscription set; "
+                   "C13_subscribe/_unsubscribe/_leave_unsubscribes give the exact evolution of that set.",
+             note=_std_note, technique=_tech),
  'C14': dict(level="Theorems C14_too_large / C14_delivery / C14_flagged / C14_handle prove, for every session, sender, recipient list and body "
                    "(parametric in the bytes), exactly which members receive a custom message; the model is tied to the code by the correspondence run.",
-             note=_std_note, technique="Lean 4 theorems over a hand-written model + differential correspondence"),
+             note=_std_note, technique=_tech),
 }
 NA = {}
